@@ -76,6 +76,9 @@ def _cases(tier, seed):
     for M, N, R in [([3], [2], [1, 1]), ([2], [3], [1, 1]), ([3, 2], [2, 2], [1, 2, 1]), ([2, 3, 2], [3, 1, 2], [1, 2, 2, 1]), ([3, 2], [1, 1], [1, 2, 1])]:
         cs.append({'scen': 'tt_diag', 's': {'dir': 'extract', 'M': M, 'N': N, 'R': R, 'dtype': 'float64'}})
     cs.append({'scen': 'tt_diag', 's': {'dir': 'extract', 'M': [3, 1], 'N': [2, 2], 'R': [1, 2, 1], 'dtype': 'complex128'}})
+    # fill value given as a 0-d tensor (checked unchanged afterwards); order-1 objects and zero widths, where tensor padding is exact
+    for N, R, pad in [([3], [1, 1], [[1, 2]]), ([4], [1, 1], [[0, 1]]), ([2, 3], [1, 2, 1], [[0, 0], [0, 0]])]:
+        cs.append({'scen': 'tt_pad', 's': {'N': N, 'R': R, 'pad': pad, 'value': 'tensor0', 'dtype': 'float64'}})
     # paddings passed as a list (checked unchanged afterwards), widths not a palindrome
     for N, R, pad in [([2, 3], [1, 2, 1], [[1, 0], [0, 2]]), ([2, 1, 2], [1, 2, 2, 1], [[2, 0], [0, 1], [1, 1]]), ([3], [1, 1], [[0, 2]])]:
         cs.append({'scen': 'tt_pad', 's': {'N': N, 'R': R, 'pad': pad, 'value': 0.0, 'dtype': 'float64', 'pad_as_list': True}})
